@@ -170,6 +170,10 @@ func runTimedSpec(s timedSpec) (obs runObs, elapsed time.Duration, err error) {
 }
 
 func timedCase(col *Collector, s timedSpec, tag string) {
+	timedCases(col, func(col *Collector) { timedCase1(col, s, tag) })
+}
+
+func timedCase1(col *Collector, s timedSpec, tag string) {
 	obs, elapsed, err := runTimedSpec(s)
 	cs := Case{Line: s.line(), Tags: []string{tag, fmt.Sprintf("T=%d", s.T)}}
 	cs.Replay = cs.Line + " kinds=" + s.kinds() + fmt.Sprintf(" interactive=%v", s.interactive)
